@@ -208,14 +208,22 @@ type Runner struct {
 }
 
 type tailBuffer struct {
-	mu  sync.Mutex
-	buf []byte
-	max int
+	mu   sync.Mutex
+	buf  []byte
+	max  int
+	head []byte // the first 16 KiB (a fatal error is announced at the start of a possibly huge goroutine dump)
 }
 
 func (t *tailBuffer) Write(p []byte) (int, error) {
 	t.mu.Lock()
 	defer t.mu.Unlock()
+	if len(t.head) < 16384 {
+		n := 16384 - len(t.head)
+		if n > len(p) {
+			n = len(p)
+		}
+		t.head = append(t.head, p[:n]...)
+	}
 	t.buf = append(t.buf, p...)
 	if len(t.buf) > t.max {
 		t.buf = t.buf[len(t.buf)-t.max:]
@@ -226,6 +234,9 @@ func (t *tailBuffer) Write(p []byte) (int, error) {
 func (t *tailBuffer) String() string {
 	t.mu.Lock()
 	defer t.mu.Unlock()
+	if len(t.buf) >= t.max && len(t.head) > 0 {
+		return string(t.head) + "\n[...]\n" + string(t.buf)
+	}
 	return string(t.buf)
 }
 
@@ -393,6 +404,9 @@ func crashVerdict(why string, stderr string) Verdict {
 	if j := strings.LastIndex(stderr, "fatal error: "); j > idx {
 		idx = j
 	}
+	if j := strings.Index(stderr, "runtime: goroutine stack exceeds"); j >= 0 && (idx < 0 || j < idx) {
+		idx = j
+	}
 	if idx >= 0 {
 		rest := strings.TrimLeft(stderr[idx:], "\n")
 		msg = rest
@@ -401,8 +415,11 @@ func crashVerdict(why string, stderr string) Verdict {
 			stack = rest[k:]
 		}
 	}
-	return Verdict{Status: "crash", Clause: "process-died", Sig: "panic:" + PanicSig(msg, stack),
-		Detail: why + "\n" + tail(stderr, 8000)}
+	detail := stderr
+	if len(detail) > 9000 {
+		detail = detail[:5000] + "\n[...]\n" + tail(detail, 3500)
+	}
+	return Verdict{Status: "crash", Clause: "process-died", Sig: "panic:" + PanicSig(msg, stack), Detail: why + "\n" + detail}
 }
 
 // ---------------------------------------------------------------------------------------------------------
